@@ -15,6 +15,7 @@ def check(ctx):
     scaling.given_parameters_honoured(ctx, 'C19-R7')
     scaling.routine_defaults_and_dispatch(ctx, 'C19-R8')
     scaling.forward_and_backward_sets_distinct(ctx, 'C19-R11')
+    scaling.rescaling_passes_parameters_on(ctx, 'C19-R12')
     ctx.undecided += ['step scaling with more than 5 step edges (the property quantifies over 0..4; R6 instantiates 0..5)',
                       'that min-max scaling lands in [0, 1] numerically',
                       'floating-point round-trip error of undo(do(x))']
